@@ -14,3 +14,4 @@ import PptxModel.Props.C10
 import PptxModel.GenProps.C10
 import PptxModel.Props.C11
 import PptxModel.GenProps.C11
+import PptxModel.Props.C01
